@@ -2,9 +2,10 @@
 //
 // Op language (stateful; one chain per `reset`):
 //
-//	reset <base>             fresh State (mainnet parameters); block heights are base+1, base+2, …
+//	reset <base> [arb]       fresh State (mainnet parameters); block heights are base+1, base+2, …; with `arb` the real
+//	                         Arbiters is driven and `rb` goes through dpos CheckPoint.OnRollbackTo (the node's entry point)
 //	blk <h> <sponsor|-> <tx> <tx> …   ProcessBlock of a block built from symbolic transactions
-//	     tx: reg:<i>[:<stakeUntil>]  upd:<i>:<n>[:<stakeUntil>]  stake:<addr>:<amount>:<nonce>  cancel:<i>  act:<i>  vote:<v>:<i>,<j>…  unvote:<v>  illegal:<i>:<nonce>  inactive:<i>:<nonce>
+//	     tx: reg:<i>[:<stakeUntil>]  upd:<i>:<n>[:<stakeUntil>]  stake:<addr>:<amount>:<nonce>  vote1:<v>:<value>:<i>=<a>,…  rtp:<workingHeight>  rtd:<interval>:<revertHeight>  cancel:<i>  act:<i>  vote:<v>:<i>,<j>…  unvote:<v>  illegal:<i>:<nonce>  inactive:<i>:<nonce>
 //	special <h> illegal:<i>  ProcessSpecialTxPayload (temporary changes, outside any block)
 //	rb <k>                   RollbackTo(k) on the state that processed everything, compared with a
 //	                         FRESH State that processed only the blocks of height <= k
@@ -28,6 +29,7 @@ import (
 
 	"github.com/elastos/Elastos.ELA/common"
 	"github.com/elastos/Elastos.ELA/common/config"
+	"github.com/elastos/Elastos.ELA/core/checkpoint"
 	"github.com/elastos/Elastos.ELA/core/contract/program"
 	"github.com/elastos/Elastos.ELA/core/transaction"
 	"github.com/elastos/Elastos.ELA/core/types"
@@ -85,16 +87,53 @@ type env struct {
 	cur     *state2.State
 	arbs    []*state2.ArbiterInfo
 	voteTxs map[int]interfaces.Transaction
+	tip     uint32
+	arbMode bool              // drive dpos/state.Arbiters and roll back through CheckPoint.OnRollbackTo
+	arb     *state2.Arbiters
+	ckp     *state2.CheckPoint
 	// heights of blocks in which an InactiveArbitrators tx named a producer that was ALREADY inactive
 	emergTwice map[uint32]bool
 	cancelTwice map[uint32]bool
+	specialAt   map[uint32]bool
 	twoMaps    bool // some producer sits in ActivityProducers AND CanceledProducers (cancel at its activation height)
 	special    bool // an out-of-block special payload (temporary changes) was processed
 }
 
 var e *env
 
+// newArbiters builds the real Arbiters (whose embedded State is then the state under test) the way
+// the node does, without a chain store: the chain lookups it registers are answered from the harness.
+func newArbiters(en *env) *state2.State {
+	params := config.DefaultParams
+	ckpm := checkpoint.NewManager(&params)
+	committee := crstate.NewCommittee(&params, ckpm)
+	arb, err := state2.NewArbitrators(&params, committee, func(common.Uint168) (common.Fixed64, error) { return 0, nil },
+		nil, nil, nil, nil, nil, nil, ckpm)
+	if err != nil {
+		panic("harness: NewArbitrators: " + err.Error())
+	}
+	arb.RegisterFunction(func() uint32 { return en.tip }, func() *common.Uint256 { return &common.Uint256{} },
+		func(uint32) (*types.Block, error) { return nil, fmt.Errorf("no block") },
+		func(tx interfaces.Transaction) (map[*common2.Input]common2.Output, error) {
+			res := map[*common2.Input]common2.Output{}
+			for _, in := range tx.Inputs() {
+				for _, vt := range en.voteTxs {
+					if vt.Hash().IsEqual(in.Previous.TxID) && int(in.Previous.Index) < len(vt.Outputs()) {
+						res[in] = *vt.Outputs()[in.Previous.Index]
+					}
+				}
+			}
+			return res, nil
+		})
+	en.arb = arb
+	en.ckp = state2.NewCheckpoint(arb)
+	return arb.State
+}
+
 func newState(en *env) *state2.State {
+	if en.arbMode {
+		return newArbiters(en)
+	}
 	params := config.DefaultParams
 	st := state2.NewState(&params,
 		func() []*state2.ArbiterInfo { return en.arbs },
@@ -154,7 +193,7 @@ func buildTx(en *env, d string) interfaces.Transaction {
 			su = uint32(v)
 		}
 		return mkTx(common2.UpdateProducer, 0, &payload.ProducerInfo{OwnerKey: ownerKeys[i], NodePublicKey: nodeKeys[i], NickName: fmt.Sprintf("P%d-%s", i, p[2]), StakeUntil: su}, nil, nil)
-	case "stake": // stake:<addr>:<amount>:<nonce>   ExchangeVotes locking <amount> on stake address <addr>
+	case "stake": // stake:<addr>:<amount>:<nonce>  vote1:<v>:<value>:<i>=<a>,…  rtp:<workingHeight>  rtd:<interval>:<revertHeight>   ExchangeVotes locking <amount> on stake address <addr>
 		a, _ := strconv.Atoi(p[1])
 		amt, _ := strconv.ParseInt(p[2], 10, 64)
 		n, _ := strconv.Atoi(p[3])
@@ -179,6 +218,30 @@ func buildTx(en *env, d string) interfaces.Transaction {
 		tx := mkTx(common2.TransferAsset, common2.TxVersion09, &payload.TransferAsset{}, []*common2.Input{}, []*common2.Output{out})
 		en.voteTxs[v] = tx
 		return tx
+	case "vote1": // vote1:<v>:<value>:<i>=<a>,<j>=<b>…  vote output with payload version 0x01: per-candidate amounts
+		v, _ := strconv.Atoi(p[1])
+		val, _ := strconv.Atoi(p[2])
+		var cv []outputpayload.CandidateVotes
+		for _, c := range strings.Split(p[3], ",") {
+			kv := strings.Split(c, "=")
+			a, _ := strconv.Atoi(kv[1])
+			cv = append(cv, outputpayload.CandidateVotes{Candidate: ownerKeys[idx(kv[0])], Votes: common.Fixed64(a)})
+		}
+		out := &common2.Output{Value: common.Fixed64(val), Type: common2.OTVote,
+			Payload: &outputpayload.VoteOutput{Version: outputpayload.VoteProducerAndCRVersion, Contents: []outputpayload.VoteContent{{VoteType: outputpayload.Delegate, CandidateVotes: cv}}}}
+		tx := functions.CreateTransaction(common2.TxVersion09, common2.TransferAsset, 0, &payload.TransferAsset{},
+			[]*common2.Attribute{{Usage: common2.Nonce, Data: []byte{byte(v), byte(v >> 8), 1}}}, []*common2.Input{}, []*common2.Output{out}, 0, []*program.Program{})
+		en.voteTxs[v] = tx
+		return tx
+	case "rtp": // rtp:<workingHeight>   RevertToPOW
+		wh, _ := strconv.Atoi(p[1])
+		return functions.CreateTransaction(common2.TxVersion09, common2.RevertToPOW, payload.RevertToPOWVersion,
+			&payload.RevertToPOW{Type: payload.NoBlock, WorkingHeight: uint32(wh)}, []*common2.Attribute{}, []*common2.Input{}, []*common2.Output{}, 0, []*program.Program{})
+	case "rtd": // rtd:<interval>:<revertToPOWHeight>   RevertToDPOS
+		iv, _ := strconv.Atoi(p[1])
+		rh, _ := strconv.Atoi(p[2])
+		return functions.CreateTransaction(common2.TxVersion09, common2.RevertToDPOS, payload.RevertToDPOSVersion,
+			&payload.RevertToDPOS{WorkHeightInterval: uint32(iv), RevertToPOWBlockHeight: uint32(rh)}, []*common2.Attribute{}, []*common2.Input{}, []*common2.Output{}, 0, []*program.Program{})
 	case "unvote":
 		v, _ := strconv.Atoi(p[1])
 		prev, ok := en.voteTxs[v]
@@ -215,6 +278,15 @@ func process(en *env, st *state2.State, b blockDesc) {
 		sponsor = nodeKeys[idx(b.sponsor)]
 	}
 	blk := &types.Block{Header: common2.Header{Height: b.height, Timestamp: 1600000000 + b.height*120}, Transactions: txs}
+	en.tip = b.height
+	if en.arbMode {
+		var confirm *payload.Confirm
+		if sponsor != nil {
+			confirm = &payload.Confirm{Proposal: payload.DPOSProposal{Sponsor: sponsor}}
+		}
+		en.arb.ProcessBlock(blk, confirm)
+		return
+	}
 	st.ProcessBlock(blk, sponsor, 0)
 }
 
@@ -320,6 +392,24 @@ func fieldDump(st *state2.State) map[string]string {
 	return res
 }
 
+// arbDump adds the Arbiters' own snapshot fields (everything except the embedded State, locks,
+// histories, callbacks and the checkpoint manager), prefixed with `Arbiters`.
+func arbDump(a *state2.Arbiters, res map[string]string) {
+	v := reflect.ValueOf(a).Elem()
+	for i := 0; i < v.NumField(); i++ {
+		f := v.Type().Field(i)
+		switch f.Name {
+		case "State", "mtx", "History", "degradation", "CkpManager", "ChainParams", "CRCommittee", "BlockConfirmProposalSponsors",
+			"Snapshots", "SnapshotKeysDesc": // per-height snapshot cache kept for queries, not rolled back by design
+			continue
+		}
+		if k := v.Field(i).Kind(); k == reflect.Func || k == reflect.Chan {
+			continue
+		}
+		flat(v.Field(i), ".Arbiters."+f.Name, res, 0)
+	}
+}
+
 var producerMaps = []string{".ActivityProducers[]", ".PendingProducers[]", ".CanceledProducers[]", ".InactiveProducers[]",
 	".IllegalProducers[]", ".PendingCanceledProducers[]", ".DposV2EffectedProducers[]"}
 
@@ -370,7 +460,7 @@ func exec(t []string) string {
 			v, _ := strconv.Atoi(t[1])
 			base = uint32(v)
 		}
-		e = &env{base: base, voteTxs: map[int]interfaces.Transaction{}}
+		e = &env{base: base, voteTxs: map[int]interfaces.Transaction{}, arbMode: len(t) > 2 && t[2] == "arb"}
 		for i := 0; i < 5; i++ {
 			e.arbs = append(e.arbs, &state2.ArbiterInfo{NodePublicKey: nodeKeys[i], IsNormal: true})
 		}
@@ -418,12 +508,22 @@ func exec(t []string) string {
 		h, _ := strconv.Atoi(t[1])
 		tx := buildTx(e, t[2])
 		e.special = true
+		if e.specialAt == nil {
+			e.specialAt = map[uint32]bool{}
+		}
+		e.specialAt[uint32(h)] = true // the block at this height is appended while the temporary changes are applied
 		e.cur.ProcessSpecialTxPayload(tx.Payload(), uint32(h))
 		return "ok"
 	case "rb":
 		k64, _ := strconv.Atoi(t[1])
 		k := uint32(k64)
 		lastTwoMaps, lastSpecial = false, e.special
+		for hh := range e.specialAt {
+			if hh > k {
+				lastSpecial = true // survives a re-synchronisation: the polluted block is still above k
+				delete(e.specialAt, hh)
+			}
+		}
 		for hh := range e.cancelTwice {
 			if hh > k {
 				lastTwoMaps = true
@@ -437,11 +537,17 @@ func exec(t []string) string {
 				delete(e.emergTwice, hh)
 			}
 		}
-		if err := e.cur.RollbackTo(k); err != nil {
+		var rerr error
+		if e.arbMode {
+			rerr = e.ckp.OnRollbackTo(k) // the node's entry point (= Arbiters.RollbackTo(k) for k >= StartHeight)
+		} else {
+			rerr = e.cur.RollbackTo(k)
+		}
+		if err := rerr; err != nil {
 			return status(e.cur) + " err"
 		}
 		// one vote-transaction table per chain (looked up by hash), shared by every instance
-		fresh := &env{base: e.base, voteTxs: e.voteTxs, arbs: e.arbs}
+		fresh := &env{base: e.base, voteTxs: e.voteTxs, arbs: e.arbs, arbMode: e.arbMode}
 		fresh.cur = newState(fresh)
 		var keep []blockDesc
 		for _, b := range e.blocks {
@@ -452,6 +558,10 @@ func exec(t []string) string {
 		}
 		e.blocks = keep
 		a, b := fieldDump(e.cur), fieldDump(fresh.cur)
+		if e.arbMode {
+			arbDump(e.arb, a)
+			arbDump(fresh.arb, b)
+		}
 		leafs := map[string]bool{}
 		lastDiff = map[string][2]string{}
 		// map entries present on one side only: report the entry once as `M[+]` (only in the rolled-back
@@ -548,7 +658,7 @@ func exec(t []string) string {
 		if len(diff) > 0 {
 			lastVerdict = "diff " + strings.Join(diff, ",")
 			// continue from the direct build: later comparisons are independent experiments
-			e.cur = fresh.cur
+			e.cur, e.arb, e.ckp = fresh.cur, fresh.arb, fresh.ckp
 			e.twoMaps, e.special = false, false
 			for k := range e.cur.ActivityProducers {
 				if _, both := e.cur.CanceledProducers[k]; both {
@@ -582,7 +692,9 @@ var twoMapsLeaf = map[string]bool{"CanceledProducers[-]": true, "Nicknames[+]": 
 // the first Append of the block after ProcessSpecialTxPayload reads the state while the temporary changes are
 // still applied (C20 note): the block takes another branch than on a node that never saw the payload
 var specialLeaf = map[string]bool{"ActivityProducers[+]": true, "IllegalProducers[-]": true, "ActivityProducers[-]": true, "IllegalProducers[+]": true,
-	"InactiveProducers[+]": true, "InactiveProducers[-]": true, "EmergencyInactiveArbiters[+]": true, "EmergencyInactiveArbiters[-]": true}
+	"InactiveProducers[+]": true, "InactiveProducers[-]": true, "EmergencyInactiveArbiters[+]": true, "EmergencyInactiveArbiters[-]": true,
+	"Producer.inactiveSince": true, "Producer.state": true, "Producer.penalty": true, "Producer.illegalHeight": true,
+	"Producer.lastUpdateInactiveHeight": true}
 
 func recorded(n string) bool {
 	return recordedLeaf[n] || (lastEmergTwice && emergLeaf[n]) || (lastTwoMaps && twoMapsLeaf[n]) || (lastSpecial && specialLeaf[n])
@@ -651,11 +763,18 @@ func gen(g *hx.Gen) {
 	bases := []uint32{0, 0, 1000, 343400, 402680, 1405000, 1800000}
 	for it := 0; it < g.N(250, 6000); it++ {
 		base := bases[r.Intn(len(bases))]
-		g.Emit("reset %d", base)
+		if it%4 == 3 {
+			// the node's objects: Arbiters + CheckPoint.OnRollbackTo (needs heights >= its StartHeight 290000)
+			base = []uint32{289999, 343400}[r.Intn(2)] // later eras need real block rewards for the turn change
+			g.Emit("reset %d arb", base)
+		} else {
+			g.Emit("reset %d", base)
+		}
 		h := base
 		registered := map[int]bool{}
 		votes := 0
 		stakeUntil := base + 100000
+		lastRTP := base
 		nonceN := 0
 		nonce := func() int { nonceN++; return nonceN }
 		liveVotes := []int{}
@@ -749,6 +868,31 @@ func gen(g *hx.Gen) {
 						txs = append(txs, fmt.Sprintf("inactive:%d:%d", i, nonce()))
 						usedInBlock[i] = true
 					}
+				}
+			}
+			if r.Chance(12) { // per-candidate votes (payload version 0x01): amounts differ from the output value
+				var cs []string
+				sum := 0
+				for j := 0; j < 10; j++ {
+					sj := stateOf(j)
+					if (sj == int(state2.Pending) || sj == int(state2.Active)) && !usedInBlock[j] && r.Chance(50) {
+						a := 10 + r.Intn(90)
+						sum += a
+						cs = append(cs, fmt.Sprintf("%d=%d", j, a))
+					}
+				}
+				if len(cs) > 0 {
+					txs = append(txs, fmt.Sprintf("vote1:%d:%d:%s", votes, sum+r.Intn(50), strings.Join(cs, ",")))
+					liveVotes = append(liveVotes, votes)
+					votes++
+				}
+			}
+			if r.Chance(8) { // consensus mode switches
+				if st.ConsensusAlgorithm == state2.DPOS {
+					txs = append(txs, fmt.Sprintf("rtp:%d", h+1))
+					lastRTP = h
+				} else if !st.NeedRevertToDPOSTX || true {
+					txs = append(txs, fmt.Sprintf("rtd:%d:%d", 1+r.Intn(4), lastRTP))
 				}
 			}
 			if r.Chance(25) { // stakes: few addresses, amounts that repeat and grow
